@@ -1,5 +1,5 @@
 """C19 — tabular export and import are faithful round trips."""
-import inspect, json, random, struct, warnings, zlib
+import inspect, json, random, struct, time, warnings, zlib
 
 import numpy as np
 import pandas as pd
@@ -21,7 +21,12 @@ THEOREMS = ['Fsic.C19.' + n for n in [
     'symbols_roundtrip_of_decoderOk', 'decoderOk_of_symbols_roundtrip', 'symbols_roundtrip_iff_decoderOk',
     'installed_coercion_observed', 'codeDecoder_ok_of_markers', 'codeDecoder_ok', 'symbols_roundtrip',
     'symbols_roundtrip_iff_validTypes', 'codeDecoder_preserves_strings', 'present_strings_roundtrip',
-    'symbols_roundtrip_strings', 'toPy_injective', 'normalising_decoder_breaks_roundtrip']]
+    'symbols_roundtrip_strings', 'toPy_injective', 'normalising_decoder_breaks_roundtrip',
+    'export_depends_on_truthiness_only', 'export_eq_export_of_bool', 'export_args_depend_on_value_only', 'export_labels_any_form',
+    'linker_export_depends_on_truthiness_only', 'identity_test_breaks_export', 'from_dataframe_strict_truthiness',
+    'from_dataframe_strict_falsy', 'from_dataframe_strict_data_columns', 'wrapChain_forwards', 'mixins_do_not_change_export',
+    'mixin_order_irrelevant', 'alias_export_renames_labels_only', 'internal_flag_matters_iff',
+    'wrapper_dropping_internal_differs_iff', 'wrapChain_dropping_internal_differs_iff']]
 RULE = ('random model scripts (1-5 equations; lags/leads, {parameters}, <errors>, exp/log/max/min/abs/np.sqrt, '
         'conditional expressions with keywords, fenced verbatim blocks, multi-line statements) built with '
         'parse_model + build_model; instances over span types range / list of str / list of int / mixed hashables / '
@@ -65,6 +70,28 @@ RULE = ('random model scripts (1-5 equations; lags/leads, {parameters}, <errors>
         'variables; 40% of the main population gets twin / member-like run-time variables too. In all of these EVERY SERIES '
         'IS UNIQUE (base = hash of the name + position; counted: series-all-unique), so a column holding another '
         'variable\'s series cannot pass. '
+        'EXTENSION MIXINS x ENTRY POINTS x THE FORM OF THE FLAGS (own workers): every model recipe (always with an underscore-prefixed '
+        'variable, declared or run-time; ALIASES incl. aliases of underscore-prefixed variables, chained and dangling, '
+        'PREFERRED_NAMES) is built once per class kind {plain, AliasMixin, TracerMixin (solved with trace=True), '
+        'PandasIndexFeaturesMixin, ProgressBarMixin, all four with AliasMixin outermost, all four with AliasMixin innermost} '
+        '(kinds whose mixin cannot be imported are left out and counted) and exported through obj.to_dataframe(...) and '
+        'fsic.tools.model_to_dataframe(obj, ...) with flag triples = the 8 plain-bool combinations + every form in {np.True_, '
+        'np.False_, 1, 0, 1.0, 0.0, \'x\', \'\', None, keyword omitted; thorough also 2, -1, np.int64, np.float64, -0.0, NaN, '
+        '\'False\', \'0\', \' \', np.int8, np.float32} in every flag position next to plain-bool others + all three flags in one form '
+        'family (np.bool_ / int / float / str, every truth combination), all None, all omitted + random mixed triples; alias '
+        'kinds also with use_aliases= in 11 forms.  Every table is compared (index, labels incl. their type, cells by bits, '
+        'dtypes) with (1) the storage-level ground truth, (2) the table of the PLAIN class of the same recipe through the same '
+        'entry point with the same flags (df-mixin-export-differs:<class>:<entry>; with truthy use_aliases only the labels may '
+        'differ and each must be the name or one of its aliases), (3) the table of the same object with bool(flag) for every flag '
+        '(df-flag-form:<form>:<flag>, the flag found by single substitution), and (4) the Lean model (classExport over the '
+        'MRO, truthy of each form, reflected defaults for omitted keywords).  Linkers of 1-3 such submodels in variants (linker '
+        'kind in {plain, AliasMixin}, submodel kinds: all of one kind for every kind, alias linker over alias / plain submodels, '
+        'random mixtures) through linker.to_dataframes, fsic.tools.linker_to_dataframes, linker.to_dataframe and '
+        'fsic.tools.model_to_dataframe(linker), same three references (the all-plain variant as class reference; the differing '
+        'table names the class: linker:<kind> / submodel:<kind>).  from_dataframe(table, strict=<form>) on the table of the class '
+        'variables and on one with a foreign column: outcome (raise or span + stored series + bool(strict)) must be the one for '
+        'bool(strict) (fd-flag-form:<form>:strict), the first must reproduce span and values in every form.  Counted per '
+        'class kind x entry point x form (mixin|<class>|<entry>|<form>), per flag x form x truth value (flag-form:*). '
         'distinct = distinct (instance recipe, entry point, flags) resp. distinct symbol list; non-trivial = at least '
         'one variable and one period resp. a non-empty list')
 TRUSTED = ['pandas (DataFrame construction from a dict of arrays / a list of dicts, Index construction from the span, '
@@ -92,13 +119,17 @@ ASSUMPTIONS = ['variable names are distinct and none is called status/iterations
                'symbols_roundtrip_iff_validTypes shows it is exactly what the round trip needs)',
                'a str / non-numeric object in a lags/leads CELL is outside the model (int(field) on it is modelled as '
                'a raise); symbols_to_dataframe never produces such a cell and nothing compared depends on it',
+               'the extension mixins are compared with the plain class of the same recipe; an ALIASES map whose KEY is the name of a '
+               'variable of the class is outside (open finding df-alias-shadows-variable: the column of that name holds the target\'s '
+               'series); what an OMITTED status / iterations keyword means is not in the property (the oracle does not check their '
+               'presence then; the model uses the reflected defaults of model_to_dataframe; omitted include_internal = not requested)',
                'position of the status/iterations columns and the order of the linker dict are not compared '
                '(the property is silent); the Lean theorems state what the code does (appended last, linker first)']
 
 META = {
-    "text": "Theorems for every store (any variables, span, cell type), flag combination, linker and symbol list: exported columns = model-order names (underscore-prefixed iff requested) ++ status? ++ iterations?, no duplicates, index = span, one cell per period, each column holds exactly its series; container export = index order; linker export = one table per submodel plus the linker's, keyed correctly (guard: linker name not a submodel key; count theorem without the guard); NAME vs STORAGE KEY made explicit (Obj = the instance __dict__, storageKey name = '_' ++ name, getItem = obj[name]): storageKey_injective, export_reads_own_series (for EVERY name list, underscore twins and member-like names included, the column of k is the __dict__ entry under storageKey k and, when the entries are pairwise different, of no other key: not the entry under k itself, not another variable's), container_reads_own_series, toObj_getItem (the __dict__ a constructor builds gives every name its own entry), from_dataframe_reads_own_series (round trip down to __dict__), attrLookup_differs_at_twin (Python's getattr would return Y's series for _Y; equal to obj[k] off __dict__ keys); from_dataframe on any export reproduces span and the cast of every class variable (identity for float models); symbols_roundtrip: for EVERY symbol list, with the reflected coercion of the installed pandas, the code's decoder (is_missing = None or float NaN -> None in name/lags/leads/equation/code, int(field) otherwise for lags/leads) returns the original list (iff every type is a Type member); in general the round trip holds for every list IFF the decoder maps the coercion's missing markers back to None in every optional field, which the code's decoder does for any coercion whose markers are None/NaN. String identity: codeDecoder_preserves_strings (for EVERY string s a present str cell decodes to s itself in name/equation/code: is_missing never fires on a str, '' and whitespace-only included), present_strings_roundtrip (under ANY coercion, whenever the round trip returns, it returns one symbol per input symbol and every present str field unchanged), symbols_roundtrip_strings (installed pandas: it does return), toPy_injective ('' and None, 'x ' and 'x' are different values of the model, so equality with the original list is field-exact), normalising_decoder_breaks_roundtrip (a decoder that alters even one string in one str field fails on a one-symbol list). Tied to fsic/tools.py, BaseModel.from_dataframe, VectorContainer.to_dataframe by exact comparison of tables (cells as IEEE bits) on generated models/linkers/symbol lists; symbol round trips compared three ways (real output == model output == original list), including parser outputs and hand-built lists whose str fields are '' or carry leading/trailing/only whitespace (strings cross to the driver JSON-escaped and come back exactly).",
+    "text": "Theorems for every store (any variables, span, cell type), flag combination, linker and symbol list: exported columns = model-order names (underscore-prefixed iff requested) ++ status? ++ iterations?, no duplicates, index = span, one cell per period, each column holds exactly its series; container export = index order; linker export = one table per submodel plus the linker's, keyed correctly (guard: linker name not a submodel key; count theorem without the guard); NAME vs STORAGE KEY made explicit (Obj = the instance __dict__, storageKey name = '_' ++ name, getItem = obj[name]): storageKey_injective, export_reads_own_series (for EVERY name list, underscore twins and member-like names included, the column of k is the __dict__ entry under storageKey k and, when the entries are pairwise different, of no other key: not the entry under k itself, not another variable's), container_reads_own_series, toObj_getItem (the __dict__ a constructor builds gives every name its own entry), from_dataframe_reads_own_series (round trip down to __dict__), attrLookup_differs_at_twin (Python's getattr would return Y's series for _Y; equal to obj[k] off __dict__ keys); from_dataframe on any export reproduces span and the cast of every class variable (identity for float models); symbols_roundtrip: for EVERY symbol list, with the reflected coercion of the installed pandas, the code's decoder (is_missing = None or float NaN -> None in name/lags/leads/equation/code, int(field) otherwise for lags/leads) returns the original list (iff every type is a Type member); in general the round trip holds for every list IFF the decoder maps the coercion's missing markers back to None in every optional field, which the code's decoder does for any coercion whose markers are None/NaN. String identity: codeDecoder_preserves_strings (for EVERY string s a present str cell decodes to s itself in name/equation/code: is_missing never fires on a str, '' and whitespace-only included), present_strings_roundtrip (under ANY coercion, whenever the round trip returns, it returns one symbol per input symbol and every present str field unchanged), symbols_roundtrip_strings (installed pandas: it does return), toPy_injective ('' and None, 'x ' and 'x' are different values of the model, so equality with the original list is field-exact), normalising_decoder_breaks_roundtrip (a decoder that alters even one string in one str field fails on a one-symbol list). FORM OF THE FLAGS: FlagForm (bool / np.bool_ / int / float by IEEE bits / str / None) with truthy = Python's bool(); export_depends_on_truthiness_only (two flag triples of any forms with equal truthiness give the same table), export_eq_export_of_bool, export_args_depend_on_value_only + linker_export_depends_on_truthiness_only (omitted keywords = reflected defaults; linker's own and every submodel's table), export_labels_any_form (labels are the names and the STRINGS status / iterations), identity_test_breaks_export (an export testing `flag is True` and taking another truthy flag for a label differs on EVERY store for every truthy non-True status flag), from_dataframe_strict_truthiness / _falsy / _data_columns. EXTENSION MIXINS: there is no class in the model - modelExport is a function of (names, series, span, flags); a mixin's to_dataframe is a Wrapper (what it hands to super(), what it does to the table); wrapChain_forwards + mixins_do_not_change_export (for every list of mixins in every MRO order the class's export IS model_to_dataframe's, underscore-prefixed variables included when requested), mixin_order_irrelevant, alias_export_renames_labels_only (use_aliases: index and cells unchanged), internal_flag_matters_iff and wrapper_dropping_internal_differs_iff / wrapChain_dropping_internal_differs_iff (a wrapper that does not pass include_internal on differs from the export for some flags IF AND ONLY IF the store has an underscore-prefixed variable, also below any forwarding wrappers). Tied to fsic/tools.py, BaseModel.from_dataframe, VectorContainer.to_dataframe by exact comparison of tables (cells as IEEE bits) on generated models/linkers/symbol lists; symbol round trips compared three ways (real output == model output == original list), including parser outputs and hand-built lists whose str fields are '' or carry leading/trailing/only whitespace (strings cross to the driver JSON-escaped and come back exactly).",
     "design_ref": "DESIGN.md §5 M8, §6 C19, §7 row 15",
-    "note": "Partial: pandas is outside the model (DataFrame/Index construction, dtype inference, None->NaN coercion, iterrows) - observed through the reflected table and by the oracle (dtype preservation). The two symbols round-trip findings (NaN for a missing name/equation/code; TypeError when every lags/leads entry is None) are fixed by fsic 56f842e: their oracle keys remain and a regression under them is a VIOLATION. Open known findings on the unchanged tree: a None span label is exported as NaN (df-index-none-label-nan); a model with a variable called `self` cannot be re-imported (from-dataframe-self-column-typeerror: from_dataframe_roundtrip carries the guard CtorNamesOk, from_dataframe_false_at_witness proves the unguarded statement false). Trusted: Lean kernel, standard axioms, the correspondence harness.",
+    "note": "Partial: pandas is outside the model (DataFrame/Index construction, dtype inference, None->NaN coercion, iterrows) - observed through the reflected table and by the oracle (dtype preservation). The two symbols round-trip findings (NaN for a missing name/equation/code; TypeError when every lags/leads entry is None) are fixed by fsic 56f842e: their oracle keys remain and a regression under them is a VIOLATION. Open known findings on the unchanged tree: an ALIASES key that is the name of a variable of the class makes the export show the target's series in that column (df-alias-shadows-variable); a None span label is exported as NaN (df-index-none-label-nan); a model with a variable called `self` cannot be re-imported (from-dataframe-self-column-typeerror: from_dataframe_roundtrip carries the guard CtorNamesOk, from_dataframe_false_at_witness proves the unguarded statement false). Trusted: Lean kernel, standard axioms, the correspondence harness.",
     "technique": "Lean 4 proof (induction over insertion-ordered dicts and symbol lists, decide on reflected tables) + differential correspondence check + property oracle on the real DataFrames"
 }
 
@@ -170,12 +201,18 @@ def series_of(obj, name, rep=None):
     return v
 
 
-def store_json(obj):
+def store_json(obj, named_only=False):
     """The instance as the Lean model receives it.  Normally AS IT IS IN MEMORY (`dict`: the 1-D arrays of
     `__dict__` under their storage keys, insertion order): the model then reads every series through `getItem`
     (`name in index`, `'_' + name`).  Only if some series is not where the layout says, by name (`data`)."""
     idx = list(vars(obj)['index'])
     out = {'span': [tok(x) for x in vars(obj)['span']], 'index': idx, 'names': list(vars(obj).get('names', []))}
+    if named_only:
+        # (TracerMixin keeps a series of Trace objects in `index` that is not a variable: its cells have no stable
+        # token; the export never reads it)
+        keep = set(out['names']) | {'status', 'iterations'}
+        out['dict'] = [['_' + k, toks(truth(obj, k))] for k in idx if k in keep and truth(obj, k) is not None]
+        return out
     if all(truth(obj, k) is not None for k in idx):
         out['dict'] = [[k, toks(v)] for k, v in vars(obj).items()
                        if isinstance(k, str) and k.startswith('_') and isinstance(v, np.ndarray) and v.ndim == 1]
@@ -581,6 +618,8 @@ def build_instance(rec):
         apply_extras(c, rec['extras'])
         return None, c
     M = hand_class(rec['class_names']) if 'class_names' in rec else model_class(rec['script'])
+    if rec.get('mixin', 'plain') != 'plain':
+        M = mixin_class(M, rec['mixin'], rec.get('aliases', []), rec.get('preferred', []))
     init = {k: (unbits(v) if not isinstance(v, list) else [unbits(b) for b in v]) for k, v in rec['init'].items()}
     m = M(make_span(kind, n, o), **init)
     for k, v in rec.get('poke', {}).items():
@@ -589,8 +628,9 @@ def build_instance(rec):
     if rec['solve']:
         with warnings.catch_warnings(), np.errstate(all='ignore'):
             warnings.simplefilter('ignore')
+            extra = {'trace': True} if rec['solve'].get('trace') and 'tracer' in mro_of(rec.get('mixin', 'plain')) else {}
             try:
-                m.solve(max_iter=rec['solve']['max_iter'], failures='ignore', errors=rec['solve']['errors'])
+                m.solve(max_iter=rec['solve']['max_iter'], failures='ignore', errors=rec['solve']['errors'], **extra)
             except Exception:  # noqa: BLE001  (a model that cannot be solved is still exported)
                 pass
     for p, st, it in rec['edits']:
@@ -681,9 +721,10 @@ def oracle_table(obj, df, flags, rep, case, where):
     if len(set(map(repr, got))) != len(got):
         violate(rep, 'df-column-duplicate', f'{where}: duplicate column labels {got}', case)
         return
-    if ('status' in got) != st:
+    # (st / it None = the keyword was omitted: the property does not say what the default is -> presence not checked)
+    if st is not None and ('status' in got) != st:
         violate(rep, 'df-status-flag', f'{where}: status={st} but columns {got}', case)
-    if ('iterations' in got) != it:
+    if it is not None and ('iterations' in got) != it:
         violate(rep, 'df-iterations-flag', f'{where}: iterations={it} but columns {got}', case)
     for nm in names:
         if nm.startswith('_'):
@@ -701,10 +742,10 @@ def oracle_table(obj, df, flags, rep, case, where):
         violate(rep, 'df-column-order', f'{where}: variable columns {var_got}, model order {var_want}', case)
     for nm in var_want:
         check_column(obj, nm, df[nm], rep, case, where, 'df')
-    if st and 'status' in got and toks(df['status']) != toks(series_of(obj, 'status', rep)):
+    if st is not False and 'status' in got and toks(df['status']) != toks(series_of(obj, 'status', rep)):
         violate(rep, 'df-status-values', f'{where}: status column {df["status"].tolist()} != '
                     f'{series_of(obj, "status").tolist()}', case)
-    if it and 'iterations' in got:
+    if it is not False and 'iterations' in got:
         its = series_of(obj, 'iterations', rep)
         if toks(df['iterations']) != toks(its):
             violate(rep, 'df-iterations-values', f'{where}: iterations column {df["iterations"].tolist()} != '
@@ -1132,9 +1173,11 @@ def check_from_table(ctx, rep, ft_items):
     if ctx.oracle_only or not ft_items:
         return
     ft_items = [x for x in ft_items if x[0] != 'uncanonical']
-    outs = ctx.drive(['tools_from_table\t' + json.dumps({'table': t, 'NAMES': names, 'default': d})
-                      for t, names, d, _, _ in ft_items])
-    for (t, names, d, impl, case), o in zip(ft_items, outs):
+    # (an optional 6th entry: the `strict=` argument as a flag form)
+    outs = ctx.drive(['tools_from_table\t' + json.dumps(dict({'table': x[0], 'NAMES': x[1], 'default': x[2]},
+                                                              **({'strict': x[5]} if len(x) > 5 else {})))
+                      for x in ft_items])
+    for (t, names, d, impl, case, *_), o in zip(ft_items, outs):
         model = json.loads(o) if not o.startswith('!') else o
         if isinstance(model, dict):
             # the constructed instance as it is in memory: storage key -> cells
@@ -1235,7 +1278,10 @@ def build_linker(lrec):
     for k, rec in lrec['subs']:
         subs[k] = build_instance(rec)[1]
     init = {k: [unbits(b) for b in v] for k, v in lrec.get('init', {}).items()}
-    l = linker_class(lrec['own'])(subs if subs else {}, name=lrec['name'], **(init if subs else {}))
+    L = linker_class(lrec['own'])
+    if lrec.get('mixin', 'plain') != 'plain':
+        L = mixin_class(L, lrec['mixin'], lrec.get('aliases', []), lrec.get('preferred', []))
+    l = L(subs if subs else {}, name=lrec['name'], **(init if subs else {}))
     if subs:
         for k, v in lrec.get('poke', {}).items():
             vars(l)['_' + k][:] = [unbits(b) for b in v]
@@ -1309,6 +1355,7 @@ def one_linker(ctx, rep, lrec, l, items, flags_list=FLAGS, entries=('method', 'f
 def check_linkers(ctx, rep, items):
     if ctx.oracle_only or not items:
         return
+    # (f: three bools, or three flag forms `form_json`)
     outs = ctx.drive(['tools_linker\t' + json.dumps({'name': nm, 'linker': ls, 'subs': ss, 'status': f[0], 'iterations': f[1],
                                                      'include_internal': f[2]}) for nm, ls, ss, f, _, _ in items])
     for (nm, ls, ss, f, impl, case), o in zip(items, outs):
@@ -1457,6 +1504,800 @@ def gen_names(rng, host):
     if host == 'runtime':        # (the base class already declares Y and X: their twins stay, they themselves go)
         names = [x for x in names if x not in ('Y', 'X')] or ['_Y', '__Y']
     return names
+
+
+# ---- extension mixins x entry points x the FORM of the flags ---------------------------------------------------------
+# The export is a function of (names, series, span, flags): a class built with extension mixins must give the table of
+# the plain class, through every entry point, and a flag counts by its TRUTH VALUE in whatever form it comes
+# (`np.True_` from a comparison, `1`, ...).  Three independent references for every exported table:
+#   (1) the storage-level ground truth (`oracle_table`: existing keys),
+#   (2) the table of the PLAIN class built from the same recipe, same entry point, same flags
+#       (`df-mixin-export-differs:<class>:<entry>`),
+#   (3) the table of the SAME object for `bool(flag)` in place of every flag (`df-flag-form:<form>:<flag>`),
+# plus the Lean model (`classExport` through the wrappers of the MRO; `truthy` on the form of each flag).
+
+OMIT = type('Omitted', (), {'__repr__': lambda self: '<omitted>'})()       # the keyword is not passed at all
+FLAG_NAMES = ('status', 'iterations', 'include_internal')
+MIXIN_SPECS = [('alias', 'AliasMixin'), ('tracer', 'TracerMixin'), ('pandasindex', 'PandasIndexFeaturesMixin'),
+               ('progress', 'ProgressBarMixin')]
+CLASS_KINDS = {'plain': [], 'alias': ['alias'], 'tracer': ['tracer'], 'pandasindex': ['pandasindex'], 'progress': ['progress'],
+               'all:alias-first': ['alias', 'tracer', 'pandasindex', 'progress'],
+               'all:alias-last': ['progress', 'pandasindex', 'tracer', 'alias']}
+LINKER_KINDS = ('plain', 'alias')
+_MIXINS = {}
+_MIXIN_CLASSES = {}
+
+
+def mixins():
+    """{key: mixin class | None (not importable here)}."""
+    if not _MIXINS:
+        import importlib
+        for key, attr in MIXIN_SPECS:
+            cls = None
+            for mod in ('fsic.extensions', 'fsic.extensions.common', 'fsic.extensions.model'):
+                try:
+                    cls = getattr(importlib.import_module(mod), attr)
+                    break
+                except Exception:  # noqa: BLE001
+                    continue
+            _MIXINS[key] = cls
+    return _MIXINS
+
+
+def mro_of(kind):
+    """The importable mixins of a class kind, outermost first."""
+    return [k for k in CLASS_KINDS.get(kind, []) if mixins().get(k) is not None]
+
+
+def class_kinds():
+    """Class kinds that can be built here (a single-mixin kind whose mixin cannot be imported is left out)."""
+    return [k for k, mro in CLASS_KINDS.items() if not mro or (mro_of(k) and (len(mro) > 1 or len(mro_of(k)) == 1))]
+
+
+def mixin_class(base, kind, aliases, preferred=()):
+    key = (base, kind, tuple(map(tuple, aliases)), tuple(preferred))
+    if key not in _MIXIN_CLASSES:
+        bases = tuple(mixins()[k] for k in mro_of(kind)) + (base,)
+        ns = {}
+        if 'alias' in mro_of(kind):
+            ns = {'ALIASES': {a: t for a, t in aliases}, 'PREFERRED_NAMES': list(preferred)}
+        _MIXIN_CLASSES[key] = type('Mx_' + ''.join(ch if ch.isalnum() else '_' for ch in kind), bases, ns)
+    return _MIXIN_CLASSES[key]
+
+
+# ---- flag forms (reconstructible from JSON)
+
+def form_json(v):
+    if v is OMIT:
+        return {'form': 'omitted'}
+    if v is None:
+        return {'form': 'none'}
+    if isinstance(v, bool):
+        return {'form': 'bool', 'value': v}
+    if isinstance(v, np.bool_):
+        return {'form': 'np.bool_', 'value': bool(v)}
+    if isinstance(v, np.integer):
+        return {'form': 'np.int64', 'value': int(v)}
+    if isinstance(v, int):
+        return {'form': 'int', 'value': v}
+    if isinstance(v, np.floating):
+        return {'form': 'np.float64', 'bits': bits(v)}
+    if isinstance(v, float):
+        return {'form': 'float', 'bits': bits(v)}
+    if isinstance(v, str):
+        return {'form': 'str', 'value': v}
+    raise TypeError(f'no flag form for {v!r}')
+
+
+def form_value(j):
+    if isinstance(j, bool):
+        return j
+    f = j['form']
+    if f == 'omitted':
+        return OMIT
+    if f == 'none':
+        return None
+    if f == 'bool':
+        return bool(j['value'])
+    if f == 'np.bool_':
+        return np.bool_(j['value'])
+    if f == 'int':
+        return int(j['value'])
+    if f == 'np.int64':
+        return np.int64(j['value'])
+    if f == 'float':
+        return unbits(j['bits'])
+    if f == 'np.float64':
+        return np.float64(unbits(j['bits']))
+    if f == 'str':
+        return str(j['value'])
+    raise ValueError(f)
+
+
+def form_name(v):
+    return form_json(v)['form']
+
+
+def plain_bool(v):
+    """`bool(flag)` as a real `bool`; an omitted keyword stays omitted."""
+    return v if v is OMIT else bool(v)
+
+
+def truth_or_none(v):
+    return None if v is OMIT else bool(v)
+
+
+def is_plain(v):
+    return v is OMIT or isinstance(v, bool)
+
+
+QUICK_FORMS = [np.True_, np.False_, 1, 0, 1.0, 0.0, 'x', '', None, OMIT]
+MORE_FORMS = [2, -1, np.int64(1), np.int64(0), np.float64(2.5), np.float64(0.0), -0.0, float('nan'), 'False', '0', ' ',
+              np.int8(0), np.float32(1.0)]
+SAME_FORM_FAMILIES = [(np.True_, np.False_), (1, 0), (1.0, 0.0), ('x', '')]
+BOOL_TRIPLES = [(s, i, n) for s in (False, True) for i in (False, True) for n in (False, True)]
+
+
+def form_triples(rng, full, thorough=False, n_random=12):
+    """Flag triples: the 8 plain-bool combinations; every non-bool form in every flag position (next to all 4 plain
+    combinations of the other two when `full`, else next to one random combination); every combination with all three
+    flags in the same form family (np.bool_ / int / float / str), all None, all omitted; random mixed triples."""
+    forms = QUICK_FORMS + (MORE_FORMS if thorough else [])
+    out = list(BOOL_TRIPLES)
+    for j in range(3):
+        for v in forms:
+            others = [(a, b) for a in (False, True) for b in (False, True)]
+            for a, b in (others if full else [rng.choice(others)]):
+                t = [a, b]
+                t.insert(j, v)
+                out.append(tuple(t))
+    for tv, fv in SAME_FORM_FAMILIES:
+        combos = BOOL_TRIPLES if full else rng.sample(BOOL_TRIPLES, 3) + [(True, True, True), (True, True, False)]
+        for c in combos:
+            out.append(tuple(tv if x else fv for x in c))
+    out += [(None, None, None), (OMIT, OMIT, OMIT)]
+    allforms = [True, False] + forms
+    for _ in range(n_random):
+        out.append(tuple(rng.choice(allforms) for _ in range(3)))
+    seen, uniq = set(), []
+    for t in out:
+        k = json.dumps([form_json(v) for v in t])
+        if k not in seen:
+            seen.add(k)
+            uniq.append(t)
+    return uniq
+
+
+def flag_kwargs(triple, ua=OMIT):
+    kw = {k: v for k, v in zip(FLAG_NAMES, triple) if v is not OMIT}
+    if ua is not OMIT:
+        kw['use_aliases'] = ua
+    return kw
+
+
+def tkey(triple):
+    return json.dumps([form_json(v) for v in triple])
+
+
+def canon_full(df):
+    """Everything observable of an exported table: index, labels (a non-str label is told apart from its str),
+    cells (floats by bits), dtypes."""
+    if not isinstance(df, pd.DataFrame):
+        return {'not-a-dataframe': type(df).__name__}
+    try:
+        cols, dtypes = [], []
+        for c, ser in df.items():          # (by position: duplicate labels stay separate columns)
+            cols.append([c if isinstance(c, str) else 'o:' + repr(c), toks(ser)])
+            dtypes.append(str(ser.dtype))
+        return {'index': [tok(x) for x in df.index], 'cols': cols, 'dtypes': dtypes,
+                'labels': [type(x).__name__ for x in df.columns]}
+    except Exception as e:  # noqa: BLE001
+        return {'uncanonical': type(e).__name__}
+
+
+def describe(c):
+    if not isinstance(c, dict) or 'cols' not in c:
+        return short(c)
+    return f'columns {[x[0] for x in c["cols"]]}'
+
+
+def gen_aliases(rng, names):
+    """ALIASES for an alias-enabled class over variables `names`: 0-3 aliases (never the name of a variable, never
+    status / iterations), targets incl. underscore-prefixed variables, sometimes chained, sometimes dangling;
+    PREFERRED_NAMES for some."""
+    names = [n for n in names if isinstance(n, str)]
+    pool = [a for a in ['GDP', 'alias_1', '_al', 'A_x', 'Zq', 'cons', '_k9'] if a not in names]
+    out = []
+    targets = rng.sample(names, min(len(names), rng.choice([0, 1, 2, 3])))
+    internal = [n for n in names if n.startswith('_')]
+    if internal and rng.random() < 0.5 and internal[0] not in targets:
+        targets.append(rng.choice(internal))
+    for t in targets:
+        if pool:
+            out.append([pool.pop(rng.randrange(len(pool))), t])
+    if out and pool and rng.random() < 0.3:
+        out.append([pool.pop(), out[0][0]])                 # chained: alias -> alias -> variable
+    if pool and rng.random() < 0.15:
+        out.append([pool.pop(), 'Nowhere'])                  # dangling
+    pref = []
+    if out and rng.random() < 0.3:
+        pref = [out[0][0]]
+    return out, pref
+
+
+def alias_targets(obj):
+    """{variable name: set of labels `use_aliases=True` may give it} from the instance's resolved aliases."""
+    out = {}
+    for a, t in dict(vars(obj).get('aliases', {})).items():
+        out.setdefault(t, set()).add(a)
+    return out
+
+
+class Family:
+    """One recipe built once per class kind; exported tables cached per (kind, entry, use_aliases, flags)."""
+
+    def __init__(self, rec):
+        self.rec = {k: v for k, v in rec.items() if k not in ('mixin',)}
+        self.objs, self.tabs = {}, {}
+
+    def recipe(self, kind):
+        return dict(self.rec, mixin=kind)
+
+    def obj(self, kind):
+        if kind not in self.objs:
+            with warnings.catch_warnings():
+                warnings.simplefilter('ignore')
+                self.objs[kind] = build_instance(self.recipe(kind))
+        return self.objs[kind][1]
+
+    def cls(self, kind):
+        self.obj(kind)
+        return self.objs[kind][0]
+
+    def export(self, kind, entry, ua, triple):
+        """(DataFrame | None, exception | None), not cached."""
+        m = self.obj(kind)
+        kw = flag_kwargs(triple, ua)
+        try:
+            with np.errstate(all='ignore'), warnings.catch_warnings():
+                warnings.simplefilter('ignore')
+                if entry == 'method':
+                    return m.to_dataframe(**kw), None
+                return fsic.tools.model_to_dataframe(m, **kw), None
+        except Exception as e:  # noqa: BLE001
+            return None, e
+
+    def table(self, kind, entry, ua, triple):
+        k = (kind, entry, json.dumps(form_json(ua)), tkey(triple))
+        if k not in self.tabs:
+            df, exc = self.export(kind, entry, ua, triple)
+            self.tabs[k] = (df, {'raises': type(exc).__name__} if exc is not None else canon_full(df))
+        return self.tabs[k]
+
+
+def blame_flags(table_of, triple, ref):
+    """Which single flag's FORM changes the table: [(flag name, form)] (empty if only the combination does)."""
+    out = []
+    for j, v in enumerate(triple):
+        if is_plain(v):
+            continue
+        single = tuple(v if k == j else plain_bool(x) for k, x in enumerate(triple))
+        if table_of(single) != ref:
+            out.append((FLAG_NAMES[j], form_name(v)))
+    return out
+
+
+def mixin_case(fam, kind, entry, ua, triple):
+    return {'kind': 'mixin-table', 'recipe': fam.recipe(kind), 'entry': entry, 'flags': [form_json(v) for v in triple],
+            'use_aliases': form_json(ua)}
+
+
+def check_mixin_case(rep, fam, kind, entry, ua, triple, absolute=True):
+    """All oracle checks of one export; returns (DataFrame | None, canon, case)."""
+    case = mixin_case(fam, kind, entry, ua, triple)
+    m = fam.obj(kind)
+    df, tbl = fam.table(kind, entry, ua, triple)
+    where = f'{kind} {entry} to_dataframe({", ".join(f"{k}={v!r}" for k, v in flag_kwargs(triple, ua).items())})'
+    # (3) the FORM of the flags: the same object, every flag replaced by bool(flag)
+    bools = tuple(plain_bool(v) for v in triple)
+    if any(not is_plain(v) for v in triple):
+        ref = fam.table(kind, entry, ua, bools)[1]
+        if tbl != ref:
+            blamed = blame_flags(lambda t: fam.table(kind, entry, ua, t)[1], triple, ref) or \
+                [('combination', '+'.join(sorted({form_name(v) for v in triple if not is_plain(v)})))]
+            for flag, form in blamed:
+                violate(rep, f'df-flag-form:{form}:{flag}', f'{where}: {describe(tbl)}; with bool() of every flag '
+                        f'({", ".join(map(repr, bools))}): {describe(ref)}', case)
+    if not is_plain(ua):
+        ref = fam.table(kind, entry, bool(ua), triple)[1]
+        if tbl != ref:
+            violate(rep, f'df-flag-form:{form_name(ua)}:use_aliases', f'{where}: {describe(tbl)}; with use_aliases={bool(ua)}: '
+                    f'{describe(ref)}', case)
+    # (2) the class: the plain class, same entry, same flags
+    ua_on = ua is not OMIT and bool(ua)
+    if kind != 'plain' or ua is not OMIT:
+        ref = fam.table('plain', entry, OMIT, triple)[1]
+        label = entry + ('' if ua is OMIT else f'+use_aliases={bool(ua)}')
+        if not ua_on:
+            if tbl != ref:
+                violate(rep, f'df-mixin-export-differs:{kind}:{label}', f'{where}: {describe(tbl)}; the plain class (same recipe, '
+                        f'same flags): {describe(ref)}', case)
+        else:
+            # labels only may differ: index, cells, dtypes as the plain class; every label the name or an alias of it
+            strip = lambda c: c if 'cols' not in c else {'index': c['index'], 'cells': [x[1] for x in c['cols']], 'dtypes': c['dtypes']}   # noqa: E731
+            if strip(tbl) != strip(ref):
+                violate(rep, f'df-mixin-export-differs:{kind}:{label}', f'{where}: {describe(tbl)}; the plain class (same recipe, '
+                        f'same flags): {describe(ref)} - more than the labels differ', case)
+            elif 'cols' in tbl:
+                al = alias_targets(m)
+                for (got, _), (want, _) in zip(tbl['cols'], ref['cols']):
+                    if got != want and got not in al.get(want, ()):
+                        violate(rep, f'df-alias-label:{kind}', f'{where}: column of {want!r} is labelled {got!r}, its aliases '
+                                f'are {sorted(al.get(want, ()))}', case)
+    # (1) storage-level ground truth
+    if absolute and not ua_on:
+        if df is None:
+            violate(rep, 'df-export-raises', f'{where} raised {tbl}', case)
+        elif not isinstance(df, pd.DataFrame):
+            violate(rep, 'df-not-a-dataframe', f'{where} returned {type(df).__name__}', case)
+        else:
+            n = truth_or_none(triple[2])
+            oracle_table(m, df, (truth_or_none(triple[0]), truth_or_none(triple[1]), False if n is None else n), rep, case, where)
+    return df, tbl, case
+
+
+def count_forms(rep, kind, entry, ua, triple):
+    forms = {form_name(v) for v in triple if not is_plain(v) or v is OMIT} or {'bool'}
+    for f in forms:
+        rep.dist[f'mixin|{kind}|{entry}|{f}'] += 1
+    for name, v in zip(FLAG_NAMES, triple):
+        rep.dist[f'flag-form:{name}:{form_name(v)}' + ('' if v is OMIT else ':truthy' if v else ':falsy')] += 1
+    if ua is not OMIT:
+        rep.dist[f'flag-form:use_aliases:{form_name(ua)}' + (':truthy' if ua else ':falsy')] += 1
+        rep.dist[f'mixin|{kind}|{entry}+use_aliases|{form_name(ua)}'] += 1
+
+
+UA_FORMS = [True, False, np.True_, np.False_, 1, 0, 1.0, 0.0, 'x', '', None]
+
+
+def one_family(ctx, rep, rec, rng, items, ft_items, full):
+    fam = Family(rec)
+    kinds = class_kinds()
+    try:
+        plain = fam.obj('plain')
+    except Exception as e:  # noqa: BLE001
+        rep.dist['mixin-family-failed:' + type(e).__name__] += 1
+        return
+    if not names_ok(plain):
+        rep.dist['names-guard-broken'] += 1
+        return
+    names = list(vars(plain)['names'])
+    rep.dist['mixin-families'] += 1
+    rep.dist['mixin-family:' + ('has-underscore-variable' if any(n.startswith('_') for n in names) else 'no-underscore-variable')] += 1
+    rep.dist['mixin-family-span:' + rec['span'][0]] += 1
+    nontrivial = bool(len(plain.span)) and bool(names)
+    thorough = ctx.tier != 'quick'
+    triples = form_triples(rng, full, thorough=thorough and full, n_random=16 if full else 8)
+    if not full:
+        # a light family: the plain class and three of the other kinds (every kind equally often over the run)
+        others = [k for k in kinds if k != 'plain']
+        rng.shuffle(others)
+        kinds = ['plain'] + others[:3]
+    for kind in kinds:
+        try:
+            m = fam.obj(kind)
+        except Exception as e:  # noqa: BLE001
+            violate(rep, f'mixin-class-unusable:{kind}', f'building the recipe with class kind {kind} raised {type(e).__name__}: '
+                    f'{short(str(e), 200)}', {'kind': 'mixin-table', 'recipe': fam.recipe(kind), 'entry': 'method',
+                                               'flags': [True, True, False], 'use_aliases': form_json(OMIT)})
+            continue
+        rep.dist['mixin-class:' + kind] += 1
+        if 'tracer' in mro_of(kind) and 'trace' in vars(m)['index'] and 'trace' not in vars(m)['names']:
+            rep.dist['tracer:trace-in-index-not-in-names'] += 1
+        store = store_json(m, named_only=True)
+        for entry in ('method', 'function'):
+            for triple in triples:
+                # absolute ground truth: always on the plain class, on the other classes for plain-bool flags and a sample
+                absolute = kind == 'plain' or all(is_plain(v) for v in triple) or rng.random() < 0.25
+                df, tbl, case = check_mixin_case(rep, fam, kind, entry, OMIT, triple, absolute=absolute)
+                count_forms(rep, kind, entry, OMIT, triple)
+                rep.case(json.dumps(case, sort_keys=True), nontrivial=nontrivial,
+                         sample={'class': kind, 'mro': [c.__name__ for c in type(m).__mro__[:5]], 'entry': entry,
+                                 'flags': case['flags'], 'columns': [x[0] for x in tbl.get('cols', [])]}
+                         if rep.evaluations % 2999 == 0 else None)
+                items.append((store, case['flags'], mro_of(kind) if entry == 'method' else None, None, tbl, case))
+        if 'alias' in mro_of(kind):
+            sub = BOOL_TRIPLES + rng.sample(triples, min(len(triples), 10 if full else 4))
+            for triple in sub:
+                for ua in (UA_FORMS if full else rng.sample(UA_FORMS, 5) + [True]):
+                    df, tbl, case = check_mixin_case(rep, fam, kind, 'method', ua, triple)
+                    count_forms(rep, kind, 'method', ua, triple)
+                    rep.case(json.dumps(case, sort_keys=True), nontrivial=nontrivial)
+                    items.append((store, case['flags'], mro_of(kind), form_json(ua), tbl, case))
+    # import: strict= in every form, on the plain and an alias-enabled class
+    for kind in [k for k in ('plain', 'alias') if k in kinds]:
+        strict_forms(ctx, rep, fam, kind, ft_items, rng, full)
+
+
+def check_mixin_tables(ctx, rep, items):
+    """items: (store, flags as forms, mro | None, use_aliases form | None, impl canon, case): `classExport` (wrappers of
+    the MRO, `truthy` of every flag) against the real table.  With truthy use_aliases the labels are not compared."""
+    if ctx.oracle_only or not items:
+        return
+    lines = []
+    for store, flags, mro, ua, impl, case in items:
+        req = {'store': store, 'status': flags[0], 'iterations': flags[1], 'include_internal': flags[2]}
+        if mro is not None:
+            req['mro'] = mro
+        if ua is not None:
+            req['use_aliases'] = ua
+        lines.append('tools_columns\t' + json.dumps(req))
+    outs = ctx.drive(lines)
+    for (store, flags, mro, ua, impl, case), o in zip(items, outs):
+        model = json.loads(o) if not o.startswith('!') else o
+        if isinstance(model, str) or 'cols' not in impl:
+            same = False
+        elif ua is not None and form_value(ua) is not OMIT and bool(form_value(ua)):
+            same = model['index'] == impl['index'] and [c[1] for c in model['cols']] == [c[1] for c in impl['cols']]
+        else:
+            same = split_special(model) == split_special({'index': impl['index'], 'cols': impl['cols']})
+        if not same:
+            rep.disagree('mixin / flag-form export: model != impl', case, model, impl)
+
+
+# ---- from_dataframe(..., strict=<form>)
+
+def fd_outcome(M, df, strict):
+    kw = {} if strict is OMIT else {'strict': strict}
+    try:
+        with warnings.catch_warnings():
+            warnings.simplefilter('ignore')
+            m2 = M.from_dataframe(df, **kw)
+    except Exception as e:  # noqa: BLE001
+        return None, e, {'raises': type(e).__name__}
+    try:
+        out = {'span': [tok(x) for x in m2.span], 'names': list(m2.names), 'strict': bool(m2.strict),
+               'dict': sorted([k, toks(v)] for k, v in vars(m2).items() if isinstance(k, str) and k.startswith('_')
+                              and isinstance(v, np.ndarray) and v.ndim == 1 and v.dtype.kind != 'O')}
+    except Exception as e:  # noqa: BLE001
+        out = {'unreadable': type(e).__name__}
+    return m2, None, out
+
+
+STRICT_FORMS = [True, False, np.True_, np.False_, 1, 0, 1.0, 0.0, 'x', '', None, OMIT]
+
+
+def strict_forms(ctx, rep, fam, kind, ft_items, rng, full):
+    """`M.from_dataframe(table, strict=<form>)` on the table of the class variables (must reproduce span and values in
+    EVERY form) and on the same table with a column that is no variable (raises when truthy): the outcome must be the
+    one for `bool(strict)`."""
+    m, M = fam.obj(kind), fam.cls(kind)
+    try:
+        base = m.to_dataframe(status=False, iterations=False, include_internal=True)
+        base = base[[c for c in base.columns if c in M.NAMES and c not in ctor_params()]]
+    except Exception:  # noqa: BLE001
+        rep.dist['strict-forms-skipped:export-failed'] += 1
+        return
+    if any(base[c].dtype.kind not in 'fiub' for c in base.columns):
+        return
+    for variant in ('class-variables', 'extra-column'):
+        df = base if variant == 'class-variables' else base.assign(Zz_extra=1.5)
+        outs = {}
+        forms = STRICT_FORMS if full else [True, False, OMIT] + rng.sample(STRICT_FORMS[2:-1], 4)
+        for v in forms:
+            outs[json.dumps(form_json(v))] = (v,) + fd_outcome(M, df, v)
+        for k, (v, m2, exc, out) in outs.items():
+            case = {'kind': 'strict-form', 'recipe': fam.recipe(kind), 'variant': variant, 'strict': form_json(v)}
+            rep.dist[f'strict-form:{kind}:{variant}:{form_name(v)}' + ('' if v is OMIT else ':truthy' if v else ':falsy')] += 1
+            rep.case(json.dumps(case, sort_keys=True), nontrivial=bool(len(m.span)) and bool(len(base.columns)))
+            if not is_plain(v):
+                ref = outs.get(json.dumps(form_json(bool(v)))) or ((bool(v),) + fd_outcome(M, df, bool(v)))
+                if out != ref[3]:
+                    violate(rep, f'fd-flag-form:{form_name(v)}:strict', f'{kind} from_dataframe({variant}, strict={v!r}): '
+                            f'{short(out, 200)}; with strict={bool(v)}: {short(ref[3], 200)}', case)
+            if variant == 'class-variables':
+                oracle_from_dataframe(M, m, df, m2, exc, rep, case, f'{kind} from_dataframe({variant}, strict={v!r})')
+            if kind == 'plain':
+                impl = 'raises' if m2 is None else {'span': out.get('span'), 'names': out.get('names'), 'dict': out.get('dict')}
+                ft_items.append((canon_or_none(df), list(M.NAMES), tok(0.0), impl, case, form_json(v)))
+
+
+# ---- linkers whose submodels (and which themselves) are mixin classes
+
+LINKER_ENTRIES = ('to_dataframes:method', 'to_dataframes:function', 'core:method', 'core:function')
+
+
+class LinkerFamily:
+    """One linker recipe built once per variant = (linker kind, (submodel kind, ...))."""
+
+    def __init__(self, lrec):
+        self.lrec = lrec
+        self.objs, self.tabs = {}, {}
+
+    def recipe(self, variant):
+        lk, sks = variant
+        return dict(self.lrec, mixin=lk, subs=[[k, dict(r, mixin=sk)] for (k, r), sk in zip(self.lrec['subs'], sks)])
+
+    def obj(self, variant):
+        key = json.dumps(variant)
+        if key not in self.objs:
+            with warnings.catch_warnings():
+                warnings.simplefilter('ignore')
+                self.objs[key] = build_linker(self.recipe(variant))
+        return self.objs[key]
+
+    def export(self, variant, entry, triple, ua=OMIT):
+        l = self.obj(variant)
+        kw = flag_kwargs(triple, ua)
+        try:
+            with np.errstate(all='ignore'), warnings.catch_warnings():
+                warnings.simplefilter('ignore')
+                if entry == 'to_dataframes:method':
+                    return l.to_dataframes(**kw), None
+                if entry == 'to_dataframes:function':
+                    return fsic.tools.linker_to_dataframes(l, **kw), None
+                if entry == 'core:method':
+                    return l.to_dataframe(**kw), None
+                return fsic.tools.model_to_dataframe(l, **kw), None
+        except Exception as e:  # noqa: BLE001
+            return None, e
+
+    def table(self, variant, entry, triple, ua=OMIT):
+        k = (json.dumps(variant), entry, tkey(triple), json.dumps(form_json(ua)))
+        if k not in self.tabs:
+            d, exc = self.export(variant, entry, triple, ua)
+            if exc is not None:
+                c = {'raises': type(exc).__name__}
+            elif entry.startswith('core'):
+                c = canon_full(d)
+            elif isinstance(d, dict):
+                c = {'tables': sorted(([ktok(key), canon_full(v)] for key, v in d.items()), key=lambda p: p[0])}
+            else:
+                c = {'not-a-dict': type(d).__name__}
+            self.tabs[k] = (d, c)
+        return self.tabs[k]
+
+
+def linker_diff_owner(l, variant, a, b):
+    """Which table of the two linker exports differs: 'linker:<kind>' | 'submodel:<kind>' | 'keys'."""
+    if 'tables' not in a or 'tables' not in b:
+        return 'linker:' + variant[0]
+    da, db = dict(map(tuple, [(k, json.dumps(v)) for k, v in a['tables']])), dict(map(tuple, [(k, json.dumps(v)) for k, v in b['tables']]))
+    if set(da) != set(db):
+        return 'keys'
+    kinds = {ktok(k): sk for k, sk in zip(l.submodels.keys(), variant[1])}
+    for k in da:
+        if da[k] != db[k]:
+            return ('submodel:' + kinds[k]) if k in kinds and k != ktok(l.name) else 'linker:' + variant[0]
+    return 'linker:' + variant[0]
+
+
+def check_linker_case(rep, fam, variant, entry, triple, ua=OMIT, absolute=True):
+    plainv = ['plain', ['plain'] * len(variant[1])]
+    case = {'kind': 'mixin-linker', 'lrecipe': fam.recipe(variant), 'variant': variant, 'entry': entry,
+            'flags': [form_json(v) for v in triple], 'use_aliases': form_json(ua)}
+    l = fam.obj(variant)
+    d, tbl = fam.table(variant, entry, triple, ua)
+    vname = f'linker[{variant[0]}] of submodels {variant[1]}'
+    where = f'{vname} {entry}({", ".join(f"{k}={v!r}" for k, v in flag_kwargs(triple, ua).items())})'
+    bools = tuple(plain_bool(v) for v in triple)
+    if any(not is_plain(v) for v in triple):
+        ref = fam.table(variant, entry, bools, ua)[1]
+        if tbl != ref:
+            blamed = blame_flags(lambda t: fam.table(variant, entry, t, ua)[1], triple, ref) or \
+                [('combination', '+'.join(sorted({form_name(v) for v in triple if not is_plain(v)})))]
+            for flag, form in blamed:
+                violate(rep, f'df-flag-form:{form}:{flag}', f'{where}: {short(describe_l(tbl), 300)}; with bool() of every flag: '
+                        f'{short(describe_l(ref), 300)}', case)
+    if not is_plain(ua):
+        ref = fam.table(variant, entry, triple, bool(ua))[1]
+        if tbl != ref:
+            violate(rep, f'df-flag-form:{form_name(ua)}:use_aliases', f'{where}: differs from use_aliases={bool(ua)}', case)
+    ua_on = ua is not OMIT and bool(ua)
+    if (variant != plainv or ua is not OMIT) and not ua_on:
+        ref = fam.table(plainv, entry, triple)[1]
+        if tbl != ref:
+            owner = linker_diff_owner(l, variant, tbl, ref)
+            violate(rep, f'df-mixin-export-differs:{owner}:{entry}', f'{where}: {short(describe_l(tbl), 300)}; all classes plain '
+                    f'(same recipe, same flags): {short(describe_l(ref), 300)}', case)
+    if absolute and not ua_on:
+        n = truth_or_none(triple[2])
+        flags = (truth_or_none(triple[0]), truth_or_none(triple[1]), False if n is None else n)
+        if d is None:
+            violate(rep, 'linker-export-raises' if entry.startswith('to_dataframes') else 'df-export-raises', f'{where} raised {tbl}', case)
+        elif entry.startswith('core'):
+            if isinstance(d, pd.DataFrame):
+                oracle_table(l, d, flags, rep, case, where)
+            else:
+                violate(rep, 'df-not-a-dataframe', f'{where} returned {type(d).__name__}', case)
+        else:
+            rep.dist['linker:' + oracle_linker_flags(l, flags, d, rep, case, where)] += 1
+    return d, tbl, case
+
+
+def describe_l(c):
+    if 'tables' in c:
+        return {k: describe(t) for k, t in c['tables']}
+    return describe(c)
+
+
+def oracle_linker_flags(l, flags, d, rep, case, where):
+    """`oracle_linker` for flags whose status / iterations may be None (= omitted)."""
+    subkeys = list(l.submodels.keys())
+    if any(same_label(l.name, k) for k in subkeys):
+        return 'name-collision'
+    if not isinstance(d, dict) or len(d) != len(subkeys) + 1 or set(map(ktok, d.keys())) != set(map(ktok, subkeys + [l.name])):
+        violate(rep, 'linker-tables-keys', f'{where}: keys {list(d.keys()) if isinstance(d, dict) else type(d)}, '
+                    f'submodels {subkeys}, linker {l.name!r}', case)
+        return 'bad-keys'
+    oracle_table(l, d[l.name], flags, rep, case, f'{where}: linker table {l.name!r}')
+    for k in subkeys:
+        oracle_table(l.submodels[k], d[k], flags, rep, case, f'{where}: submodel table {k!r}')
+    return 'ok'
+
+
+def linker_variants(rng, nsub, full):
+    kinds = class_kinds()
+    out = [['plain', ['plain'] * nsub]]
+    for k in kinds:
+        if k != 'plain':
+            out.append(['plain', [k] * nsub])
+    if 'alias' in kinds:
+        out.append(['alias', ['alias'] * nsub])
+        out.append(['alias', ['plain'] * nsub])
+    for _ in range(3 if full else 1):
+        out.append([rng.choice(LINKER_KINDS if 'alias' in kinds else ['plain']), [rng.choice(kinds) for _ in range(nsub)]])
+    seen, uniq = set(), []
+    for v in out:
+        if json.dumps(v) not in seen:
+            seen.add(json.dumps(v))
+            uniq.append(v)
+    return uniq
+
+
+def one_linker_family(ctx, rep, lrec, rng, litems, full):
+    fam = LinkerFamily(lrec)
+    nsub = len(lrec['subs'])
+    plainv = ['plain', ['plain'] * nsub]
+    try:
+        lp = fam.obj(plainv)
+    except Exception as e:  # noqa: BLE001
+        rep.dist['mixin-linker-failed:' + type(e).__name__] += 1
+        return
+    if not names_ok(lp) or not all(names_ok(x) for x in lp.submodels.values()):
+        rep.dist['names-guard-broken'] += 1
+        return
+    rep.dist['mixin-linker-families'] += 1
+    rep.dist['mixin-linker-submodels:%d' % nsub] += 1
+    if any(n.startswith('_') for x in lp.submodels.values() for n in vars(x)['names']):
+        rep.dist['mixin-linker:submodel-has-underscore-variable'] += 1
+    if any(n.startswith('_') for n in vars(lp)['names']):
+        rep.dist['mixin-linker:core-has-underscore-variable'] += 1
+    triples = form_triples(rng, False, n_random=6 if full else 3)
+    if not full:
+        triples = BOOL_TRIPLES + rng.sample(triples[8:], min(len(triples) - 8, 22))
+    for variant in linker_variants(rng, nsub, full):
+        try:
+            l = fam.obj(variant)
+        except Exception as e:  # noqa: BLE001
+            violate(rep, f'mixin-class-unusable:linker[{variant[0]}]', f'building the linker variant {variant} raised '
+                    f'{type(e).__name__}: {short(str(e), 200)}',
+                    {'kind': 'mixin-linker', 'lrecipe': fam.recipe(variant), 'variant': variant, 'entry': 'core:method',
+                     'flags': [True, True, False], 'use_aliases': form_json(OMIT)})
+            continue
+        rep.dist['mixin-linker-class:' + variant[0]] += 1
+        for sk in set(variant[1]):
+            rep.dist['mixin-linker-submodel-class:' + sk] += 1
+        lstore = store_json(l, named_only=True)
+        sstores = [[ktok(k), store_json(x, named_only=True)] for k, x in l.submodels.items()]
+        for entry in LINKER_ENTRIES:
+            for triple in triples:
+                absolute = variant == plainv or all(is_plain(v) for v in triple) or rng.random() < 0.25
+                d, tbl, case = check_linker_case(rep, fam, variant, entry, triple, absolute=absolute)
+                vk = f'linker[{variant[0]}]/sub[{"+".join(sorted(set(variant[1]))) or "none"}]'
+                for f in ({form_name(v) for v in triple if not is_plain(v) or v is OMIT} or {'bool'}):
+                    rep.dist[f'mixin|{vk}|{entry}|{f}'] += 1
+                rep.case(json.dumps(case, sort_keys=True, default=str), nontrivial=bool(nsub))
+                if entry.startswith('to_dataframes') and 'tables' in tbl:
+                    impl = [[k, list(split_special({'index': t['index'], 'cols': t['cols']}))] if 'cols' in t else [k, t]
+                            for k, t in tbl['tables']]
+                    litems.append((ktok(l.name), lstore, sstores, case['flags'], impl, case))
+        if variant[0] == 'alias':
+            for triple in BOOL_TRIPLES[::3] + rng.sample(triples, 2):
+                for ua in rng.sample(UA_FORMS, 4) + [False]:
+                    d, tbl, case = check_linker_case(rep, fam, variant, 'core:method', triple, ua=ua)
+                    rep.dist[f'mixin|linker[alias]|core:method+use_aliases|{form_name(ua)}'] += 1
+                    rep.case(json.dumps(case, sort_keys=True, default=str), nontrivial=True)
+
+
+def gen_mixin_recipe(rng):
+    """A model recipe for the mixin families: always at least one underscore-prefixed variable (declared by a
+    hand-written class or added at run time), aliases for the alias-enabled kinds."""
+    if rng.random() < 0.45:
+        host = rng.choice(['class', 'class', 'runtime'])
+        names = gen_names(rng, host)
+        if not any(n.startswith('_') for n in names):
+            names.insert(rng.randint(0, len(names)), rng.choice(['_hid', '_q', '__p']))
+        if host == 'class' and names[0].startswith('_') and rng.random() < 0.7:
+            names.append(names.pop(0))
+        rec = gen_named_recipe(rng, host, [n for n in names if n not in ('aliases', 'preferred_names', 'trace')])
+        allnames = list(rec.get('class_names', [])) or (['Y', 'X'] + [e[0] for e in rec['extras']])
+    else:
+        M = None
+        for _ in range(20):
+            script = gen_script(rng) if rng.random() < 0.9 else rng.choice(CATALOGUE)
+            try:
+                with warnings.catch_warnings():
+                    warnings.simplefilter('ignore')
+                    M = model_class(script)
+                break
+            except Exception:  # noqa: BLE001
+                continue
+        if M is None:
+            script, M = 'Y = X', model_class('Y = X')
+        rec = gen_recipe(rng, script, list(M.NAMES))
+        taken = {e[0] for e in rec['extras']} | set(M.NAMES)
+        if not any(n.startswith('_') for n in taken):
+            nm = rng.choice(['_hid', '_', '__p', '_X1', '_9'])
+            dt = rng.choice(['float', 'int', 'bool', 'str'])
+            vals = uniq_vals(nm, 30, rec['span'][1], dt) if rec.get('uniq') and dt != 'bool' else None
+            rec['extras'].insert(rng.randint(0, len(rec['extras'])),
+                                 [nm, dt, {'scalar': False, 'vals': vals} if vals is not None else gen_extra_values(rng, dt, rec['span'][1])])
+        rec['extras'] = [e for e in rec['extras'] if e[0] not in ('aliases', 'preferred_names', 'trace')]
+        allnames = list(M.NAMES) + [e[0] for e in rec['extras']]
+    rec['aliases'], rec['preferred'] = gen_aliases(rng, allnames)
+    if rec['solve'] and rng.random() < 0.5:
+        rec['solve']['trace'] = True
+    return rec
+
+
+def run_mixins(ctx, rep, n_full, n_light, n_linkers):
+    rng = ctx.sub_rng('mixins')
+    t0 = time.time()
+    for k, cls in mixins().items():
+        rep.dist[f'mixin-importable:{k}:{"yes" if cls is not None else "no"}'] = 1
+    items, ft_items, litems = [], [], []
+    for j in range(n_full + n_light):
+        rec = gen_mixin_recipe(rng)
+        one_family(ctx, rep, rec, rng, items, ft_items, full=j < n_full)
+        if len(items) > 6000:
+            check_mixin_tables(ctx, rep, items)
+            items = []
+    check_mixin_tables(ctx, rep, items)
+    check_from_table(ctx, rep, ft_items)
+    rep.dist['worker-seconds-summed:mixin-families'] += int(time.time() - t0)
+    for j in range(n_linkers):
+        kind = rng.choice(['range', 'liststr', 'listint', 'mixed'])
+        n, o = rng.choice([1, 2, 3, 4]), rng.randint(0, 3)
+        subs = []
+        for key in rng.sample(SUB_KEYS, rng.choice([1, 1, 2, 3])):
+            r = gen_mixin_recipe(rng)
+            r['span'] = [kind, n, o]
+            r['edits'] = [e for e in r['edits'] if e[0] < n]
+            names = r.get('class_names') or list(model_class(r['script']).NAMES)
+            if r.get('uniq'):
+                for jj, v in enumerate(names):
+                    tgt = r['poke'] if v in r.get('poke', {}) else r['init']
+                    if v in tgt:
+                        tgt[v] = [bits(x) for x in uniq_vals(v, jj, n, 'float')]
+                for jj, e in enumerate(r['extras']):
+                    e[2] = {'scalar': False, 'vals': uniq_vals(e[0], len(names) + jj, n, e[1])}
+            else:
+                r['init'] = {}
+                for e in r['extras']:
+                    e[2] = gen_extra_values(rng, e[1], n)
+            subs.append([key, r])
+        own = rng.choice(OWN_CHOICES)
+        lrec = gen_named_linker_recipe(rng, own, [x for x in rng.sample(['_w', 'Ww', '_'], rng.choice([0, 1])) if x not in own],
+                                       subs, n, kind, o, name=rng.choice([x for x in LINKER_NAMES if x not in [k for k, _ in subs]]))
+        lrec['solve'] = rng.random() < 0.3
+        lnames = list(own) + [e[0] for e in lrec['extras']]
+        lrec['aliases'], lrec['preferred'] = gen_aliases(rng, lnames) if lnames else ([['GDP', 'Nowhere']], [])
+        one_linker_family(ctx, rep, lrec, rng, litems, full=ctx.tier != 'quick')
+        if len(litems) > 3000:
+            check_linkers(ctx, rep, litems)
+            litems = []
+    check_linkers(ctx, rep, litems)
 
 
 def symbol_lists(rng, scripts, n_sub, built=()):
@@ -1685,6 +2526,28 @@ def run_symbols(ctx, rep, scripts, n_sub, n_edge_scripts=0, n_built=0):
 
 
 PROBE_SPANS = [[1, None, 2], [None, 'a']]
+KNOWN_ALIAS_SHADOW = 'df-alias-shadows-variable'
+
+
+def probe_alias_shadow(rep, verbose=False):
+    """An alias-enabled class whose ALIASES maps the NAME OF A VARIABLE to another variable (`{'X': 'Y'}`, X and Y both
+    variables): `model['X']` resolves to Y, so the export's column X holds Y's series, not the stored series of X."""
+    if mixins().get('alias') is None:
+        return
+    case = {'kind': 'probe-alias-shadow'}
+    M = mixin_class(model_class('Y = X + Z'), 'alias', [['X', 'Y']])
+    m = M(range(3), Y=[1.0, 2.0, 3.0], Z=[4.0, 5.0, 6.0])
+    vars(m)['_X'][:] = [7.0, 8.0, 9.0]
+    for entry, df in (('method', m.to_dataframe(status=False, iterations=False)),
+                      ('function', fsic.tools.model_to_dataframe(m, status=False, iterations=False))):
+        got, stored = toks(df['X']), toks(vars(m)['_X'])
+        if verbose:
+            print(df)
+            print('  stored X:', vars(m)['_X'].tolist())
+        if got != stored:
+            violate(rep, KNOWN_ALIAS_SHADOW, f"{entry}: class with ALIASES = {{'X': 'Y'}} over variables Y, X, Z: column 'X' holds "
+                    f"{df['X'].tolist()} (= Y), the stored series of X is {vars(m)['_X'].tolist()}", case)
+        rep.case(json.dumps([case, entry]), nontrivial=True)
 
 
 def run_probes(ctx, rep):
@@ -1718,24 +2581,43 @@ def run_probes(ctx, rep):
         if not ctx.oracle_only:
             check_tables(ctx, rep, [('VectorContainer.to_dataframe (plain container)', store_json(c), None,
                                      table_canon(df), case)])
+    probe_alias_shadow(rep)
     # empty symbol list
     back, exc = symbol_round_trip([])
     oracle_symbols([], back, exc, rep, {'kind': 'symbols', 'script': ''})
     rep.case('symbols:[]', nontrivial=False)
 
 
-N_PARTS = {'quick': 4, 'thorough': 12}
+N_MAIN = {'quick': 4, 'thorough': 8}        # workers of the models / linkers / name-pool stages
+N_MIX = {'quick': 6, 'thorough': 8}         # workers of the mixin x entry point x flag-form stage
+N_PARTS = {t: N_MAIN[t] + N_MIX[t] for t in N_MAIN}
 
 
 def _work(ctx, rep):
-    """One of N_PARTS worker processes: its share of the models, linkers and name-pool cases."""
+    """One of N_PARTS worker processes: the first N_MAIN share the models, linkers and name-pool cases, the others the
+    mixin x entry point x flag-form families."""
     quick = ctx.tier == 'quick'
+    n_main = N_MAIN[ctx.tier]
+    if ctx.part >= n_main:
+        ctx.part, ctx.parts = ctx.part - n_main, N_MIX[ctx.tier]
+        share = lambda total: max(1, -(-total * ctx.scale // ctx.parts))   # noqa: E731
+        with warnings.catch_warnings():
+            warnings.simplefilter('ignore')
+            t0, c0 = time.time(), time.process_time()
+            run_mixins(ctx, rep, share(6 if quick else 24), share(30 if quick else 240), share(12 if quick else 60))
+        rep.dist['worker-seconds-summed:mixins'] += int(time.time() - t0)
+        rep.dist['worker-cpu-seconds-summed:mixins'] += int(time.process_time() - c0)
+        return
+    ctx.parts = n_main
     share = lambda total: max(1, -(-total * ctx.scale // ctx.parts))   # noqa: E731
+    t0, c0 = time.time(), time.process_time()
     with warnings.catch_warnings():
         warnings.simplefilter('ignore')
         scripts = run_models(ctx, rep, share(420 if quick else 4000))
         run_linkers(ctx, rep, share(110 if quick else 1000), scripts)
         run_names(ctx, rep, share(160 if quick else 2400), share(60 if quick else 800))
+    rep.dist['worker-seconds-summed:main'] += int(time.time() - t0)
+    rep.dist['worker-cpu-seconds-summed:main'] += int(time.process_time() - c0)
     for host in NAME_HOSTS:
         refused = _ACCEPTED.get('refused:' + host)
         if refused and ctx.part == 0:
@@ -1755,7 +2637,7 @@ def run(ctx, rep):
         run_symbols(ctx, rep, extra, n_sub, n_edge_scripts=(400 if quick else 4000) * ctx.scale,
                     n_built=(1500 if quick else 20000) * ctx.scale)
         run_probes(ctx, rep)
-    rep.notes.append(f'workers {N_PARTS[ctx.tier]}, symbol scripts {len(extra)} (+{n_sub} sub-lists)')
+    rep.notes.append(f'workers {N_MAIN[ctx.tier]} + {N_MIX[ctx.tier]} (mixins x flag forms), symbol scripts {len(extra)} (+{n_sub} sub-lists)')
 
 
 # ---- replay -------------------------------------------------------------------------------------------------
@@ -1819,6 +2701,46 @@ def replay(ctx, rep, case):
                 df, exc = safe(lambda: l.to_dataframe(**kw), rep, 'df-export-raises', f'linker.to_dataframe{kw}', case)
                 if exc is None:
                     oracle_table(l, df, flags, rep, case, f'linker.to_dataframe{kw}')
+        elif kind == 'mixin-table':
+            rec = case['recipe']
+            fam = Family(rec)
+            triple = tuple(form_value(j) for j in case['flags'])
+            ua = form_value(case.get('use_aliases', {'form': 'omitted'}))
+            df, tbl, _ = check_mixin_case(rep, fam, rec.get('mixin', 'plain'), case['entry'], ua, triple)
+            print('  class :', [c.__name__ for c in type(fam.obj(rec.get('mixin', 'plain'))).__mro__[:6]])
+            print('  call  :', case['entry'], flag_kwargs(triple, ua))
+            print(df if df is not None else f'  raised {tbl}')
+            print('  plain class, bool flags:')
+            print(fam.table('plain', case['entry'], OMIT, tuple(plain_bool(v) for v in triple))[0])
+        elif kind == 'mixin-linker':
+            fam = LinkerFamily(dict(case['lrecipe'], mixin='plain', subs=[[k, dict(r, mixin='plain')] for k, r in case['lrecipe']['subs']]))
+            triple = tuple(form_value(j) for j in case['flags'])
+            ua = form_value(case.get('use_aliases', {'form': 'omitted'}))
+            d, tbl, _ = check_linker_case(rep, fam, case['variant'], case['entry'], triple, ua=ua)
+            print('  call  :', case['entry'], flag_kwargs(triple, ua), 'variant', case['variant'])
+            print('  got   :', describe_l(tbl))
+            print('  plain :', describe_l(fam.table(['plain', ['plain'] * len(case['variant'][1])], case['entry'],
+                                                   tuple(plain_bool(v) for v in triple))[1]))
+        elif kind == 'strict-form':
+            fam = Family(case['recipe'])
+            k = case['recipe'].get('mixin', 'plain')
+            m, M = fam.obj(k), fam.cls(k)
+            base = m.to_dataframe(status=False, iterations=False, include_internal=True)
+            base = base[[c for c in base.columns if c in M.NAMES and c not in ctor_params()]]
+            df = base if case['variant'] == 'class-variables' else base.assign(Zz_extra=1.5)
+            v = form_value(case['strict'])
+            m2, exc, out = fd_outcome(M, df, v)
+            print(f'  from_dataframe(strict={v!r}):', short(out, 300))
+            if not is_plain(v):
+                ref = fd_outcome(M, df, bool(v))[2]
+                print(f'  from_dataframe(strict={bool(v)!r}):', short(ref, 300))
+                if out != ref:
+                    violate(rep, f'fd-flag-form:{form_name(v)}:strict', f'from_dataframe({case["variant"]}, strict={v!r}) differs from '
+                            f'strict={bool(v)}', case)
+            if case['variant'] == 'class-variables':
+                oracle_from_dataframe(M, m, df, m2, exc, rep, case, f'from_dataframe(strict={v!r})')
+        elif kind == 'probe-alias-shadow':
+            probe_alias_shadow(rep, verbose=True)
         elif kind == 'probe-span':
             m = model_class(case['script'])(list(case['span']))
             df = m.to_dataframe()
